@@ -680,7 +680,7 @@ namespace detail
 	template<typename T, qualifier Q>
 	GLM_FUNC_QUALIFIER GLM_CONSTEXPR vec<4, T, Q> operator-(vec<4, T, Q> const& v)
 	{
-		return vec<4, T, Q>(0) -= v;
+		return vec<4, T, Q>(-v.x, -v.y, -v.z, -v.w);
 	}
 
 	// -- Binary arithmetic operators --
